@@ -152,6 +152,7 @@ prop("C02",
      runs=[dict(test="^TestC02_Gen$", quick=dict(checks=1200), thorough=dict(checks=12000, shards=16, timeout=3000)),
            dict(test="^TestC02_Enum$", quick=dict(env=dict(VERIF_C02_FRAGS=2, VERIF_C02_ALPHA=6, VERIF_C02_PARTS=4)),
                 thorough=dict(env=dict(VERIF_C02_FRAGS=3, VERIF_C02_ALPHA=4, VERIF_C02_PARTS=1), shards=16, timeout=3000)),
+           dict(test="^TestC02_EnumExclusive$", quick=dict(), thorough=dict(shards=4, timeout=3000)),
            dict(test="^TestC02_Enum$", thorough_only=True, thorough=dict(env=dict(VERIF_C02_FRAGS=2, VERIF_C02_ALPHA=6, VERIF_C02_PARTS=1), shards=4, timeout=3000))])
 
 prop("C17",
